@@ -266,8 +266,9 @@ fn deps_mode(raw: &[Value], scratch: &Path) -> Summary {
             "libcnb-unknown" => "libcnb:verif/unknown".to_string(),
             "relative" => format!("../rel{k}/bp"),
             "absolute" => format!("/abs/./path{k}/../kept-verbatim"),
-            "docker" => "docker://docker.io/heroku/procfile-cnb:2.0.0".to_string(),
-            "https" => "https://example.com/some/bp.cnb?x=1#frag".to_string(),
+            // (deliberately not in RFC 3986 normal form: "copied verbatim" means exactly that)
+            "docker" => "docker://Docker.IO/heroku/procfile-cnb:2.0.0".to_string(),
+            "https" => "https://Example.com/a/../some/bp%7e.cnb?x=1#frag".to_string(),
             "urn" => "urn:cnb:registry:heroku/nodejs@1.0.0".to_string(),
             o => panic!("dep kind {o}"),
         }).collect();
